@@ -9,13 +9,14 @@ EXTENDS MC_Agg, Json
 VARIABLES hist, cuts, nser, fin
 gvars == <<vars, hist, cuts, nser, fin>>
 
-DocG(c, v, w, d, g) == [id |-> <<0>>, cat |-> c, v |-> v, w |-> w, f |-> w, d |-> d, g |-> <<g>>]
+DocG(c, v, w, d, g, q) == [id |-> <<0>>, cat |-> c, v |-> v, w |-> w, f |-> w, d |-> d, g |-> <<g>>, q |-> <<q>>]
 GenDocDomain ==
-  {DocG(c, v, w, d, g) : c \in {<<>>, <<0>>, <<1>>, <<0, 1>>},
-                         v \in {<<>>, <<1>>, <<3, 1>>, <<3, 3, -2>>},
-                         w \in {<<>>, <<0>>, <<2>>, <<5>>, <<-3>>},
-                         d \in {<<>>, <<1000>>, <<4000>>},
-                         g \in {0, 1}}
+  {DocG(c, v, w, d, g, q) : c \in {<<>>, <<0>>, <<1>>, <<0, 1>>},
+                            v \in {<<>>, <<1>>, <<3, 1>>, <<3, 3, -2>>},
+                            w \in {<<>>, <<0>>, <<2>>, <<5>>},
+                            d \in {<<>>, <<1000>>, <<4000>>},
+                            g \in {0, 1},
+                            q \in {11, 15}}
 
 DHist(i, off, mdc, sub) == [k |-> "date_histogram", field |-> "d", interval |-> i, offset |-> off, mdc |-> mdc, sub |-> sub]
 Subs1 == << <<"s", M("sum", "v")>>, <<"m", M("min", "w")>> >>
@@ -38,6 +39,10 @@ GenReqs == MCReqs \cup {
   << <<"f", Filter("w", 2, Subs1)>>, <<"c", M("cardinality", "cat")>> >>,
   << <<"p", Pct("w", <<25, 75>>)>>, <<"co", Composite(3, << <<"a", "w", FALSE>> >>, << <<"p", Pct("v", <<50>>)>> >>)>> >>,
   << <<"h", Hist("w", 3, 0, 1, << <<"th", TopHits(1, << <<"id", FALSE>> >>, <<"id", "cat", "v">>)>> >>)>> >>,
+  \* the fused terms x histogram collector, fractional intervals 0.1 / 0.3 on the full field q
+  << <<"t", Terms("g", 10, 1, CountDesc, << <<"h", Hist("q", 2, 0, 0, <<>>)>> >>)>> >>,
+  << <<"t", Terms("g", 10, 1, Ord("key", TRUE, "", ""), << <<"h", Hist("q", 2, 0, 1, <<>>)>> >>)>> >>,
+  << <<"t", Terms("g", 1, 1, CountDesc, << <<"h", HistExt("q", 6, 2, -3, 21, <<>>)>> >>)>>, <<"h", Hist("q", 2, 0, 0, Subs1)>> >>,
   << <<"co", Composite(10, << <<"a", "g", TRUE>>, <<"b", "w", TRUE>> >>, << <<"th", TopHits(2, << <<"g", TRUE>>, <<"id", TRUE>> >>, <<"id">>)>> >>)>> >> }
 
 H(rec) == hist' = Append(hist, rec) /\ UNCHANGED <<cuts, nser, fin>>
